@@ -19,18 +19,18 @@ type Item struct {
 }
 
 type Obligation struct {
-	Name    string
-	Kind    string // ensures, frame, pre, inv.entry, inv.preserve, term, safe, cover, lemma, vacuity
-	Tags    []string
-	Fn      string
-	Goal    string // SMT Bool term that must be valid given items[:N]
-	Blk     int    // root-level block in which the obligation arises (-1: at function exit, sees every block)
-	N       int    // number of items visible
-	ExpSat  bool   // cover/vacuity: expected satisfiable (goal is asserted positively)
-	Src     string // spec source text / description
-	Root    *Root
-	NoModel bool
-	Static  string // "proved"/"failed": decided without a solver (frame obligations over the SSA graph)
+	Name         string
+	Kind         string // ensures, frame, pre, inv.entry, inv.preserve, term, safe, cover, lemma, vacuity
+	Tags         []string
+	Fn           string
+	Goal         string // SMT Bool term that must be valid given items[:N]
+	Blk          int    // root-level block in which the obligation arises (-1: at function exit, sees every block)
+	N            int    // number of items visible
+	ExpSat       bool   // cover/vacuity: expected satisfiable (goal is asserted positively)
+	Src          string // spec source text / description
+	Root         *Root
+	NoModel      bool
+	Static       string // "proved"/"failed": decided without a solver (frame obligations over the SSA graph)
 	StaticDetail string
 }
 
@@ -50,18 +50,18 @@ type Root struct {
 	discover bool
 	// callsModAll: the function calls a contract with 'modifies *' (see havocModifies)
 	callsModAll bool
-	nopanic  bool
-	allocs   []string // refs allocated by this activation (not in loops)
-	errs     []string
-	siteCnt  map[string]int
-	curBlock int // current root-level block index (for write logging)
-	cones    map[int]map[int]bool
-	fnShort  string
-	inputs   []ModelInput
-	locals   map[string]bool
-	seenAssume map[string]bool
-	stateReads map[string]bool
-	slice    *sliceCache
+	nopanic     bool
+	allocs      []string // refs allocated by this activation (not in loops)
+	errs        []string
+	siteCnt     map[string]int
+	curBlock    int // current root-level block index (for write logging)
+	cones       map[int]map[int]bool
+	fnShort     string
+	inputs      []ModelInput
+	locals      map[string]bool
+	seenAssume  map[string]bool
+	stateReads  map[string]bool
+	slice       *sliceCache
 }
 
 type ModelInput struct {
@@ -161,9 +161,9 @@ func (r *Root) addObl(o *Obligation) {
 
 // Loc is a symbolic location (pointer value known at generation time).
 type Loc struct {
-	Kind string // "local" (state var holding the value), "heap" (ref into per-type heap), "global", "elem" (element of slice value: read-only)
-	Name string // state var name for local/global ; heap state var name for heap
-	Base string // ref term (heap) / slice term (elem)
+	Kind string     // "local" (state var holding the value), "heap" (ref into per-type heap), "global", "elem" (element of slice value: read-only)
+	Name string     // state var name for local/global ; heap state var name for heap
+	Base string     // ref term (heap) / slice term (elem)
 	T    types.Type // type of the root object
 	Path []PathEl
 }
@@ -174,27 +174,27 @@ type PathEl struct {
 }
 
 type Enc struct {
-	r      *Root
-	fn     *ssa.Function
-	ct     *Contract // contract of fn if root
-	vals   map[ssa.Value]string
-	tuples map[ssa.Value][]string
-	locs   map[ssa.Value]*Loc
-	funcs  map[ssa.Value]string // function-valued SSA values resolved to names
-	reach  map[*ssa.BasicBlock]string
-	stOut  map[*ssa.BasicBlock]map[string]string
-	st     map[string]string // current state within block being encoded
-	guard  string            // reach of call site (for inlined), "true" for root
-	depth  int
-	pfx    string
-	cur    *ssa.BasicBlock
-	loops  map[*ssa.BasicBlock]*loopInfo // by head
-	params map[string]string
-	entrySt map[string]string
-	rets   []retInfo
-	iters  map[ssa.Value]*iterInfo
-	ranges map[ssa.Value]*rangeInfo
-	dbg    map[string][]ssa.Value // source variable name -> values (from DebugRef)
+	r           *Root
+	fn          *ssa.Function
+	ct          *Contract // contract of fn if root
+	vals        map[ssa.Value]string
+	tuples      map[ssa.Value][]string
+	locs        map[ssa.Value]*Loc
+	funcs       map[ssa.Value]string // function-valued SSA values resolved to names
+	reach       map[*ssa.BasicBlock]string
+	stOut       map[*ssa.BasicBlock]map[string]string
+	st          map[string]string // current state within block being encoded
+	guard       string            // reach of call site (for inlined), "true" for root
+	depth       int
+	pfx         string
+	cur         *ssa.BasicBlock
+	loops       map[*ssa.BasicBlock]*loopInfo // by head
+	params      map[string]string
+	entrySt     map[string]string
+	rets        []retInfo
+	iters       map[ssa.Value]*iterInfo
+	ranges      map[ssa.Value]*rangeInfo
+	dbg         map[string][]ssa.Value // source variable name -> values (from DebugRef)
 	panicBlocks map[*ssa.BasicBlock]bool
 }
 
@@ -208,15 +208,15 @@ type retInfo struct {
 }
 
 type loopInfo struct {
-	head   *ssa.BasicBlock
-	body   map[*ssa.BasicBlock]bool
-	name   string // L1, L2...
-	spec   *LoopSpec
-	headSt map[string]string
-	autoInv  []autoInv
-	decAtHead string
+	head         *ssa.BasicBlock
+	body         map[*ssa.BasicBlock]bool
+	name         string // L1, L2...
+	spec         *LoopSpec
+	headSt       map[string]string
+	autoInv      []autoInv
+	decAtHead    string
 	entryNextRef string
-	entrySt map[string]string
+	entrySt      map[string]string
 }
 
 func copyState(m map[string]string) map[string]string {
